@@ -47,8 +47,8 @@ def f22_shape(b):
 # sha256 of the definitions (comments / blank lines stripped) of the two generated files the whole-step model is built
 # from, as lifted from the pinned tree.  While both match, a disagreement between `advstep.fit` and the Fraction oracle
 # is a bug of this machinery (exit 2); after a source edit that changed a lifted file it is a broken tie (exit 1).
-PINNED_GEN_SHA256 = {"AdvProjection.lean": "238c40171dee892da779fa6c615ff5483a5b83c1d1eb2a7d8dc70b3fbbd0f26c", "AdvScheduleSrc.lean": "2a6782c3963fb6a11e55dd01c69785874c9377aa8b68efd6fe5be320e2bc5775",
-                     "AdvTrainStepSrc.lean": "cefa669fa6e1fefe837194c5593164707fcc237931452e7ebceea5938a844486"}
+PINNED_GEN_SHA256 = {"AdvProjection.lean": "d4c223310a99b7f89c8f7e61bdbc4aa5428e8b55a4a14c531a475991efee5835", "AdvScheduleSrc.lean": "2a6782c3963fb6a11e55dd01c69785874c9377aa8b68efd6fe5be320e2bc5775",
+                     "AdvTrainStepSrc.lean": "0819dc7e8951df08092950eab5f792764a12a1109c6251bdac905d3a44bff2bc"}
 # what `trainstep.applied` must print: buffers consistent, predictor applies combine(dLP/dW, dLA/dW), adversary applies dLA/dU
 WANT_APPLIED = "1 combine(1,0,0;0,1,0) 0,1,0"
 _GEN_STATE = {}
@@ -78,6 +78,36 @@ def model_problem(msg):
         return Problem("correspondence", "the whole-step model built from the LIFTED loop body / schedule departs from the "
                        "documented update: " + msg, "C16.whole_step_sgd")
     return Problem("harness", msg)
+
+
+def norm_diagnosis(obs, a, b, alpha, shape):
+    """DIAGNOSTIC only (text appended to a violation message): which norm of dLA/dW would explain the observed update
+    obs = a - c*b - alpha*b ?  The implied squared norm is <b,a>/c with c = <a - obs - alpha*b, b>/<b,b>."""
+    try:
+        bb = sum(y * y for y in b)
+        ba = sum(x * y for x, y in zip(a, b))
+        c = sum((x - o - alpha * y) * y for x, o, y in zip(a, obs, b)) / bb
+        if ba == 0 or c == 0:
+            return ""
+        implied = float(ba / c)
+        cands = {"the L1 norm of the flattened tensor (sum of |entries|)": float(sum(abs(y) for y in b)) ** 2,
+                 "the max-abs norm (largest |entry|)": float(max(abs(y) for y in b)) ** 2}
+        r, cc = shape
+        if r >= 2 and cc >= 2:
+            import numpy as np
+            M = np.array([[float(y) for y in b[i * cc:(i + 1) * cc]] for i in range(r)])
+            sv = np.linalg.svd(M, compute_uv=False)
+            cands["the SPECTRAL norm (largest singular value: torch.linalg.norm(g, 2) / matrix_norm(g, 2))"] = float(sv[0]) ** 2
+            cands["the nuclear norm (sum of the singular values)"] = float(sv.sum()) ** 2
+            cands["the matrix 1-norm (largest column sum)"] = float(np.abs(M).sum(axis=0).max()) ** 2
+            cands["the matrix inf-norm (largest row sum)"] = float(np.abs(M).sum(axis=1).max()) ** 2
+        for name, v in cands.items():
+            if abs(v - float(bb)) > 1e-3 * float(bb) and abs(v - implied) <= 1e-3 * abs(implied):
+                return (f" (the applied update is the one that normalises dLA/dW with {name}: implied |dLA/dW|^2 = {implied:.6g}, "
+                        f"2-norm squared = {float(bb):.6g})")
+    except (ZeroDivisionError, ValueError, OverflowError):
+        pass
+    return ""
 
 
 def planned_steps(n, bs, ep, mi):
@@ -212,13 +242,16 @@ def _shape2(t):
 class CHECK(Check):
     pid = "C16"
     technique = ("Lean 4 theorems over the Adversarial model (projection algebra on tensors of any shape, tied to the "
-                 "source by translator lifters: loop body (adv_projection.py) and statement structure of train_step "
+                 "source by translator lifters: loop body incl. the NORM KIND that normalises dLA/dW (adv_projection.py) and statement structure of train_step with pinned call arguments "
                  "(adv_trainstep.py)) + the whole step / whole fit as a pure function (Model/AdvStep.lean) + correspondence of real "
                  "PyTorch training steps and whole fits with the compiled model")
     level_text = ("Theorems (all tensor shapes and sizes, all alpha): g + alpha*dLA/dW is orthogonal to dLA/dW; the matrix "
                   "Frobenius product is the dot of the flattenings; the literal three-line loop body of both engines (lifted "
                   "from the Python source: inner-product kind, tiny kind, coordinate arithmetic) equals the normalised model; "
-                  "sum-of-row-pair inner products coincide with Frobenius only for single rows (2x2 counter-witness); plain "
+                  "sum-of-row-pair inner products coincide with Frobenius only for single rows (2x2 counter-witness); the norm kind is lifted "
+                  "(frobenius / l1Flat / maxAbs; spectral, nuclear, per-axis refused) and the model computes with it: orthogonality and "
+                  "'the coefficient is the projection coefficient' each hold iff the lifted norm is the 2-norm of the flattening "
+                  "(`orthogonal_iff_two_norm`, `lifted_norm_is_frobenius`); plain "
                   "SGD observation recovers the applied gradient; branch taken when dLA/dW = 0. Tie: real torch models trained "
                   "through partial_fit with plain SGD vs the compiled Lean model and an exact Fraction oracle on the same "
                   "autograd gradients (rel. 5e-6). TensorFlow engine: lifted structurally only, NOT exercised (not installed). "
@@ -270,7 +303,11 @@ class CHECK(Check):
                "TensorFlow engine not executed (tensorflow/keras are not installed): structural lift only",
                "torch tensor hooks deliver, per backward pass, the gradient of that pass for every parameter (kind=fit)",
                "harness/lifters/adv_trainstep.py: statement roles of train_step by shape (zero_grad / backward / list-comprehension "
-               "copies / loop / step) and autograd dependencies by data flow (`.detach()` cuts); PyTorch accumulates into .grad")
+               "copies / loop / step) and autograd dependencies by data flow (`.detach()` cuts); PyTorch accumulates into .grad; "
+               "the whitelisted call arguments (zero_grad(set_to_none=..), train(mode=..), backward(retain_graph=..)) do not change any "
+               "gradient value (reasons in the lifter's doc comment); `backward` without retain_graph frees the graph it walked",
+               "harness/lifters/adv_projection.py: which torch / tensorflow norm functions compute the 2-norm / 1-norm / max-norm of the "
+               "FLATTENED tensor when called without dim/axis (table in `classify_norm`)")
     assumptions = ("plain SGD optimisers (no momentum / weight decay)", "float32 models on CPU, one thread",
                    "batches have the same type_of_target as the first call's data",
                    "gradient tensors are not in float32's gradual-underflow band (2^-75 < max|entry| < 1e-18), else not judged; "
@@ -705,6 +742,8 @@ class CHECK(Check):
                             gs = [x for r in proto.p_mat(m_sum) for x in r]
                             if max(abs(float(x - y)) for x, y in zip(obs, gs)) <= tol:
                                 diag = " (the applied update equals the variant that projects with the SUM OF ALL ROW-PAIR inner products)"
+                        if not diag:
+                            diag = norm_diagnosis(obs, a, b, alpha, t["shape"])
                         probs.append(Problem(
                             "property", f"{where}: applied update + alpha*dLA/dW is not orthogonal to dLA/dW: "
                             f"<g+alpha b, b> = {res:.3e} (cosine {cos:.3e}, tolerance {tol:.1e}){diag}", "C16.orthogonal"))
@@ -712,7 +751,8 @@ class CHECK(Check):
                 if err > tol:
                     probs.append(Problem(
                         "property", f"{where}: (W_before-W_after)/lr differs from dLP/dW - proj - alpha*dLA/dW by {err:.3e} "
-                        f"(tolerance {tol:.1e}, |dLP/dW|={na:.2e}, |dLA/dW|={nb:.2e})", "C16.update_rule"))
+                        f"(tolerance {tol:.1e}, |dLP/dW|={na:.2e}, |dLA/dW|={nb:.2e})"
+                        + (norm_diagnosis(obs, a, b, alpha, t["shape"]) if bb != 0 else ""), "C16.update_rule"))
                     continue
                 if mo is not None:
                     if m_step in ("nan", "bad-op"):
@@ -869,7 +909,7 @@ class CHECK(Check):
                 f"ylabels={case['ystyle']}" if case["ykind"] != "continuous" else "ylabels=float"]
         nontriv = False
         if "steps" in o:
-            multi = multi2 = zero = under = f22 = False
+            multi = multi2 = zero = under = f22 = rank2 = twoentries = False
             for st in o["steps"]:
                 tags.append("batch_rows=" + ("1" if len(st["rows"]) == 1 else "2-4" if len(st["rows"]) <= 4 else "5-16"))
                 for t in st["pred"]:
@@ -888,9 +928,23 @@ class CHECK(Check):
                             multi = True
                         if r >= 2 and c >= 2:
                             multi2 = True
+                        # shapes on which the NORM KIND is visible: >= 2 non-zero entries (L1 / max-abs differ from the 2-norm),
+                        # two non-proportional rows (rank >= 2: the spectral norm differs from the Frobenius norm)
+                        if len(fin) == len(t["b"]):
+                            bv = [F(v) for v in t["b"]]
+                            if sum(1 for v in bv if v != 0) >= 2:
+                                twoentries = True
+                            if r >= 2 and c >= 2 and not rank2:
+                                rows_ = [bv[i * c:(i + 1) * c] for i in range(r)]
+                                rank2 = any(rows_[i][k] * rows_[j][m] != rows_[i][m] * rows_[j][k]
+                                            for i in range(r) for j in range(i + 1, r) for k in range(c) for m in range(k + 1, c))
             tags.append("has_multirow_tensor" if multi else "only_single_row_tensors")
             if multi2:
                 tags.append("has_tensor_rows>=2_cols>=2")
+            if rank2:
+                tags.append("has_dLA/dW_rank>=2(non-proportional_rows)")
+            if twoentries:
+                tags.append("has_dLA/dW_with>=2_nonzero_entries")
             if zero:
                 tags.append("some_dLA/dW_zero")
             if under:
